@@ -335,6 +335,24 @@ def run(tier, seed, replay):
     judge(cases, results)
     ck.notes.append("repository corpus: %d inputs, %d mutations" % (len(base), len(cases) - len(base)))
 
+    # ---- 4b. the well-formed templates of the semantic families (scopes, lists, nested structures): every emitter must
+    # return on them too - the generator machines know lexical contexts, these know which shapes mean something
+    import semrun
+    fam_runs = [dict(module="MCWxmlSem", cfg="MCWxmlSem_" + f, workers=4, timeout=900, sample=(smp, seed) if smp else None)
+                for f, smp in (("F6", 3 if quick else None), ("F5", 12 if quick else 2), ("F2", 12 if quick else 2), ("F7", 4 if quick else None))]
+    fam_cases = []
+    for fr in vlib.tlc_many(fam_runs, parallel=4):
+        vlib.tlc_expect_ok(fr, "MCWxmlSem (templates for C01)")
+        ck.add_tlc(fr)
+        for c in fr.cases:
+            for v, srcs in semrun.build_sources(c, rnd, 1, plain_first=False):
+                for p_, t_ in srcs:
+                    fam_cases.append(mk_case(t_, len(fam_cases), "spec-family"))
+                    if rnd.random() < 0.3:
+                        fam_cases.append(mk_case(mutate(t_, rnd), len(fam_cases), "spec-family-mutation"))
+    judge(fam_cases, totalrun.supervise(fam_cases))
+    ck.notes.append("spec families F2/F5/F6/F7: %d inputs" % len(fam_cases))
+
     # cursor trace validation: structured sample of what ran fine
     pool = [c for c, r in zip(cases, results) if r and r["outcome"] == "ok" and r.get("events", 0) > 0 and len(c["src"]) < 600]
     rnd.shuffle(pool)
